@@ -65,7 +65,7 @@ func (t *tracer) msg(m *sarama.VerifProdMsg) string {
 	var pan []string
 	if m.ID >= 0 {
 		for _, ic := range t.sc.Ics {
-			p := false
+			p := ic.Nil
 			for _, x := range ic.PanicOn {
 				if x == m.ID {
 					p = true
@@ -484,6 +484,12 @@ func (sc *Scenario) CoqCfg() string {
 		d := 0
 		if v2 {
 			d = len(fmt.Sprintf("i%d", i)) + 1 + 10
+		}
+		if ic.Nil {
+			// a nil entry: an interceptor whose application always panics; a negative delta marks it for the trace
+			// validation (no invocation can be logged for it)
+			ics = append(ics, "mkIc false (-1)")
+			continue
 		}
 		ics = append(ics, fmt.Sprintf("mkIc %s %d", b(ic.AddHeader), d))
 	}
